@@ -110,7 +110,7 @@ def gen_file(rng, big=70000, marker=True, debug=False, defect=False):
             flt = bytes([1, 1]) + hw.to_bytes(2, "big")
             if hw != 0xBE and rng.random() < 0.25:
                 # the filter names ANOTHER component than the tag-type map does: the hardware id of the component is the filter's
-                flt = bytes([1, 1]) + rng.choice([x for x in (0x9B, 0xAD, 0xC0, 0x93, 0x0B) if x != hw])   # not B6 / BE: BGM versions must be text.to_bytes(2, "big")
+                flt = bytes([1, 1]) + rng.choice([x for x in (0x9B, 0xAD, 0xC0, 0x93, 0x0B) if x != hw]).to_bytes(2, "big")   # not B6 / BE: BGM versions must be text
             if hw == 0xBE and rng.random() < 0.5:
                 # the filters of the BGM12X family that do not end in the hardware id (special-cased by the importer)
                 flt = bytes.fromhex(rng.choice(["010100B6", "010280B600BE", "010280BE00B6"]))
